@@ -542,6 +542,10 @@ def run (ctx):
     hard = any('is_hard_timed_out' in f and f.endswith(':truthy') for f in fs)
     want = 'OFPRR_IDLE_TIMEOUT' if idle else ('OFPRR_HARD_TIMEOUT' if hard else None)
     good = want is not None and pairs.get(lname) == want
+    if not good and evaluated and events_ == want_:
+      # the classification is not written as a guard on the append (a helper returns the reason, the sweep dispatches on it): the
+      # evaluation above has walked the sweep on the four-entry sample table and seen each entry go out with its reason
+      good = True; want = want or pairs.get(lname)
     ctx.ob('R-AGREE', ree, "entries expired by the %s timeout are removed with reason %s" % ('idle' if idle else 'hard', want), good,
            "list `%s` -> %s" % (lname, pairs.get(lname)) if good else "list `%s` (filled under %s) is removed with reason %s" % (lname, [f for f in fs if 'timed_out' in f], pairs.get(lname)), (ftmod, c), 'D5')
     if hard and not idle:
